@@ -119,19 +119,25 @@ def run_check_guarded(mod, case):
         # harness frames), an ordinary-sized generated input made the code under test allocate gigabytes: a violation;
         # otherwise it is the harness' own problem.
         import gc
-        frames, ex_ = [], e
-        while ex_ is not None and len(frames) < 400:   # also the exception being handled when memory ran out again
-            frames += list(traceback.extract_tb(ex_.__traceback__))
-            ex_ = ex_.__context__
         repo_src = os.path.join(os.path.realpath(os.environ.get("VERIF_REPO", "/repo")), "src")
-        where = [f for f in frames if os.path.realpath(f.filename).startswith(repo_src)]
-        del frames
+        last, ex_ = None, e
+        # walk the raw traceback objects (no allocations: memory is still exhausted while the failing frames are alive)
+        while ex_ is not None:
+            tb = ex_.__traceback__
+            while tb is not None:
+                fn = tb.tb_frame.f_code.co_filename
+                if fn.startswith(repo_src) or os.path.realpath(fn).startswith(repo_src):
+                    last = (os.path.basename(fn), tb.tb_frame.f_code.co_name, tb.tb_lineno)
+                tb = tb.tb_next
+            nxt = ex_.__context__
+            ex_.__traceback__ = None      # release the frames (and whatever giant object they hold)
+            ex_ = nxt
+        del ex_, e
         gc.collect()
-        if where:
-            last = where[-1]
-            return Result.violation("memory-exhausted:" + os.path.basename(last.filename) + ":" + last.name,
+        if last is not None:
+            return Result.violation("memory-exhausted:" + last[0] + ":" + last[1],
                                     "the case made optyx exhaust the worker's address-space limit (VERIF_WORKER_MEM_GB) in "
-                                    + os.path.basename(last.filename) + ":" + str(last.lineno))
+                                    + last[0] + ":" + str(last[2]))
         return Result("harness", "harness-error", "MemoryError outside optyx")
     except HarnessError as e:
         return Result("harness", "harness-error", str(e))
